@@ -25,4 +25,11 @@ theorem geval_join2 :
       (.ok (Loc.join [.point 3, .point 4], Loc.canonGuard [.point 3, .point 4]), ⟨[], []⟩) := by
   geval []
 
+set_option maxRecDepth 10000 in
+/-- `4..7`: the run of the flagged parser with the fuel of `AsLocation` -/
+theorem geval_range47 :
+    LocParseG.loc Loc.canonGuard 6 ⟨[52, 46, 46, 55], []⟩ =
+      (.ok (.ranged 3 7 false false, false), ⟨[], []⟩) := by
+  geval []
+
 end Gts
